@@ -1,6 +1,7 @@
 use std::borrow::Cow;
 use std::collections::VecDeque;
 use std::fmt::Display;
+use std::net::SocketAddr;
 use std::ops::Deref;
 
 use tokio::net::TcpStream;
@@ -20,6 +21,7 @@ use super::{ClockId, SourceRemovedEvent, SpawnAction, SpawnEvent, Spawner, Spawn
 struct PoolSource {
     id: ClockId,
     remote: String,
+    addr: SocketAddr,
 }
 
 pub struct NtsPoolSpawner {
@@ -76,6 +78,12 @@ impl NtsPoolSpawner {
         self.current_sources
             .iter()
             .any(|source| source.remote == domain)
+    }
+
+    fn contains_address(&self, addr: SocketAddr) -> bool {
+        self.current_sources
+            .iter()
+            .any(|source| source.addr == addr)
     }
 
     async fn lookup(&mut self) -> Option<(TcpStream, String, Option<String>)> {
@@ -183,10 +191,18 @@ impl Spawner for NtsPoolSpawner {
                     ))
                     .await
                     {
+                        // Different names can point at the same server, never poll it twice.
+                        if self.contains_address(address) {
+                            warn!(
+                                "received a server from pool-ke whose address we already use, ignoring"
+                            );
+                            continue;
+                        }
                         let id = ClockId::new();
                         self.current_sources.push(PoolSource {
                             id,
                             remote: remote_name.unwrap_or(ke.remote),
+                            addr: address,
                         });
                         action_tx
                             .send(SpawnEvent::new(
